@@ -1,6 +1,7 @@
 """C07 -- build-file restraints hold for every residue they select."""
 from vlib.framework import PUnit, LUnit, BUnit
 from contracts import restraints as R
+from contracts import random_walk as W
 from bounded import b_coords
 
 
@@ -12,6 +13,7 @@ def build(tier, seed):
         PUnit("distance-milestones", [R.MILESTONES_C], R.REG),
         PUnit("distance-restraint-bounds", [R.SET_DR], R.REG),
         PUnit("tree-path-to-the-reference", [R.ALL_PRED], R.REG_PRE),
+        PUnit("accepted-point-passed-every-guard", [W.UPDATE_BODY], W.REG5),     # the guards are evaluated at the STORED (wrapped) point
         LUnit("min-image-distance-unique", R.lemma_min_image_unique),
         LUnit("accepted-point-meets-restraints", R.lemma_accepted_point_meets_restraints),
     ] + [u for u in b_coords.UNITS if u.name == "c07-restraints"]
